@@ -696,10 +696,9 @@ impl<'a> G<'a> {
             let clash = vs.iter().any(|w| {
                 w == &v
                     || match (w, &v) {
-                        // gate (finding N16): same-named variants of the same size whose labels
-                        // differ — a positional pattern is taken to cover the labelled twin. Twins
-                        // are kept only when their sizes differ.
-                        (GTy::Tup(a, fa), GTy::Tup(b, fb)) => a == b && (fa.len() == fb.len() || !self.r.chance(1, 6)),
+                        // same-named twins (also of the same size with different labels: N16,
+                        // repaired by e0ad7de) are kept with low probability
+                        (GTy::Tup(a, _), GTy::Tup(b, _)) => a == b && !self.r.chance(1, 6),
                         _ => false,
                     }
             });
